@@ -22,6 +22,7 @@ def run(ctx: Context) -> None:
     ctx.rule('R08.4', "meshes: every mesh dimension is paired with the old-to-new table of its own element kind (edges exactly when the mask has an edge table), rows are selected at the axis position of that dimension, and every variable is either a re-indexed topology variable, copied unchanged (no mesh dimension), or row-selected", floor=9)
     ctx.rule('R08.5', "only spatially selected collections reach the output: coordinates forwarded unchanged into a clipped dataset have no mesh dimension / come from the cropped dataset", floor=3)
     ctx.rule('R08.6', "fill value choice: already masked data, then the _FillValue attribute, then missing_value, then the dtype's own NaN, else the variable cannot be masked; an attribute is used whenever it is present (whatever its value)", floor=5)
+    ctx.rule('R08.7', "applying a mask never writes into the mask or the input dataset (a saved mask can be applied to a second dataset)", floor=5)
     ctx.assume("xarray where/isel/open_mfdataset; netCDF round trip of the per-variable files (value equality after the round trip is NOT decided)")
 
     mg = ctx.func(f"{MASKING}.mask_grid_dataset")
@@ -224,6 +225,11 @@ def run(ctx: Context) -> None:
     ok = len(fin) == 1 and norm_text(fin[0].args[0]) == 'dataset' and all(aflow.resolve(r.value) is fin[0] for r in ac.returns())
     ctx.check('R08.5', ok, "the result is re-assembled from the written (selected) files only, with the input's layout", ac, fin[0] if fin else ac.node)
 
+    from .common import purity_obligations
+    purity_obligations(ctx, 'R08.7', ac, ['clip_mask'], "UGrid.apply_clip_mask")
+    purity_obligations(ctx, 'R08.7', mg, [ds_p, mask_p], "mask_grid_dataset")
+    purity_obligations(ctx, 'R08.7', md, [m_p, d_p], "mask_grid_data_array")
+
     # ------------------------------------------------------------------ R08.6
     ff = ctx.func(f"{MASKING}.find_fill_value")
     fflow = ctx.flow(ff)
@@ -273,6 +279,7 @@ VARIANTS = [
     V('C08', 'edge-mask-needs-edge-node', _U, "        if has_edges:\n            dimension_masks[topology.edge_dimension]", "        if has_edges and topology.has_valid_edge_node_connectivity:\n            dimension_masks[topology.edge_dimension]", 'R08.4'),
     V('C08', 'slice-axis-off', _U, "slice_index = tuple([numpy.s_[:]] * index + [dimension_masks[dim]])", "slice_index = tuple([numpy.s_[:]] * (index + 1) + [dimension_masks[dim]])", 'R08.4'),
     V('C08', 'coords-unsliced-again', _U, "            coords={\n                name: coord for name, coord in dataset.coords.items()\n                if set(coord.dims).isdisjoint(mesh_dimensions)},", "            coords=dataset.coords,", 'R08.5'),
+    V('C08', 'mask-indexes-no-copy', _U, "            masked_values = numpy.ma.masked_invalid(data_array.values)", "            masked_values = numpy.ma.masked_invalid(data_array.values, copy=False)", 'R08.7'),
     V('C08', 'fill-zero-ignored', _M, "        if attr in data_array.attrs:\n", "        if data_array.attrs.get(attr):\n", 'R08.6'),
     V('C08', 'missing-value-first', _M, "    attrs = ['_FillValue', 'missing_value']", "    attrs = ['missing_value', '_FillValue']", 'R08.6'),
 ]
